@@ -62,6 +62,8 @@ def view_dataset():
     # give the records a tp tag mix and a cigar so that stat has something to count
     for i, r in enumerate(urecs):
         r.opt = [f"tp:A:{'PSI'[i % 3]}", "NM:i:0"] + [o for o in r.opt if o.startswith("cg:")]
+    # one read name carries its FASTQ description (GraphAligner writes names like that)
+    urecs[1] = rgfa.Rec(urecs[1].qname + " desc=1 len=4", *urecs[1].cols()[1:], opt=list(urecs[1].opt))
     srecs = [rgfa.to_stable_model(g, r) for r in urecs]
     return g, urecs, srecs
 
@@ -364,7 +366,12 @@ def run_gaf_side_padded(scratch, variant, tag, aligned=False):
 
 
 def write_graph(path, text):
-    if NO_FINAL_NEWLINE[0]:
+    if NO_FINAL_NEWLINE[0] == "blank":
+        # an empty line between the last S line and what follows (tolerated by the reader of plain files)
+        lines = text.split("\n")
+        k = max((i for i, l in enumerate(lines) if l.startswith("S\t")), default=0) + 1
+        text = "\n".join(lines[:k] + [""] + lines[k:])
+    elif NO_FINAL_NEWLINE[0]:
         text = text.rstrip("\n")
     if path.endswith(".gz"):
         # two gzip members (what `cat a.gz b.gz` or bgzip produce): a valid gzip file
@@ -452,7 +459,7 @@ NO_FINAL_NEWLINE = [False]
 
 
 def graph_part(res, scratch):
-    for lfirst, nonl in ((False, False), (True, False), (False, True), (True, True)):
+    for lfirst, nonl in ((False, False), (True, False), (False, True), (True, True), (False, "blank"), (True, "blank")):
         NO_FINAL_NEWLINE[0] = nonl
         try:
             base = run_graph_side(scratch, False, "gplain", lfirst)
@@ -460,7 +467,7 @@ def graph_part(res, scratch):
         finally:
             NO_FINAL_NEWLINE[0] = False
         res.nt(fw.h64(["graph-gz", lfirst, nonl]))
-        compare(res, base, got, "gzip-compressed graph" + (" (L lines before S lines)" if lfirst else "") + (" (last line not newline terminated)" if nonl else ""), {"part": "graph"})
+        compare(res, base, got, "gzip-compressed graph" + (" (L lines before S lines)" if lfirst else "") + (" (an empty line inside the file)" if nonl == "blank" else " (last line not newline terminated)" if nonl else ""), {"part": "graph"})
         res.count("subcommands_with_compressed_graph", len(base))
 
 
